@@ -1,6 +1,7 @@
 import Apko.Model.Accounts
 import Apko.Proofs.Lemmas.Accounts
 import Apko.Proofs.Lemmas.AccountsExt
+import Apko.Proofs.Lemmas.AccountsOpen
 import Apko.Generated.Accounts
 /-! C13 — declared accounts and path mutations are realized in the image
 (theorems over `Model/Accounts.lean`, which composes `Model/FS.lean` and `Model/Formats.lean`) -/
@@ -139,6 +140,56 @@ theorem runas_resolved_exists (entries : List User) (runAs : Text) (hne : runAs 
     exact ⟨v, h2, h3, h1⟩
 
 theorem runas_empty (entries : List User) : resolveRunAs entries [] = [] := by simp [resolveRunAs]
+
+theorem renderUser_ne_nil (u : User) : renderUser u ≠ [] := by
+  unfold renderUser
+  intro h
+  have := congrArg List.length h
+  simp at this
+
+theorem renderGroup_ne_nil (g : Group) : renderGroup g ≠ [] := by
+  unfold renderGroup
+  intro h
+  have := congrArg List.length h
+  simp at this
+
+theorem writeUsers_ne_nil (us : List User) (h : us ≠ []) : writeUsers us ≠ [] := by
+  cases us with
+  | nil => exact absurd rfl h
+  | cons u rest =>
+    intro he
+    simp only [writeUsers, List.flatMap_cons, List.append_eq_nil_iff] at he
+    exact renderUser_ne_nil u he.1
+
+theorem writeGroups_ne_nil (gs : List Group) (h : gs ≠ []) : writeGroups gs ≠ [] := by
+  cases gs with
+  | nil => exact absurd rfl h
+  | cons g rest =>
+    intro he
+    simp only [writeGroups, List.flatMap_cons, List.append_eq_nil_iff] at he
+    exact renderGroup_ne_nil g he.1
+
+/-- **passwd_append (the file)**: the write-back of `mutateAccounts` (`accounts_append`: it is the
+last thing done to `etc/passwd`, with `all = old entries ++ configured entries`) leaves a file that
+reads back as exactly the rendering of `all`, entry by entry in that order — whether the file was
+absent, in memory, or shipped by a package (whose bytes are replaced).  Side conditions: the state
+before the write satisfies the graph invariant and `etc/passwd` itself is not a symbolic link. -/
+theorem passwd_content (c : Cfg) (hc : c.posix = false) (fs2 fs' : FS) (hi : FS.Inv fs2) (all : List User)
+    (hne : all ≠ [])
+    (hnl : ∀ pi a, getNode c fs2 (dir passwdPath) = .ok pi → fs2.lookup pi (base passwdPath) = some a →
+      (fs2.node a).isSymlink = false)
+    (h : writeBack c fs2 passwdPath (writeUsers all) = (fs', none)) :
+    readText c fs' passwdPath = writeUsers all :=
+  writeBack_readText c hc fs2 fs' hi passwdPath _ (writeUsers_ne_nil all hne) hnl h
+
+/-- **group_append (the file)** -/
+theorem group_content (c : Cfg) (hc : c.posix = false) (fs1 fs' : FS) (hi : FS.Inv fs1) (all : List Group)
+    (hne : all ≠ [])
+    (hnl : ∀ pi a, getNode c fs1 (dir groupPath) = .ok pi → fs1.lookup pi (base groupPath) = some a →
+      (fs1.node a).isSymlink = false)
+    (h : writeBack c fs1 groupPath (writeGroups all) = (fs', none)) :
+    readText c fs' groupPath = writeGroups all :=
+  writeBack_readText c hc fs1 fs' hi groupPath _ (writeGroups_ne_nil all hne) hnl h
 
 /-! ## home directories -/
 
